@@ -3,7 +3,7 @@
 From DA Require Import Prelude NDArray Array PyRT.
 From DA.Gen Require Import locate_slice.
 From DA.Model Require Import SliceSpec.
-From DA.Proofs Require Import C02_proofs C02_decreasing.
+From DA.Proofs Require Import C02_proofs C02_decreasing C02_negstep.
 From Coq Require Import Sorted.
 
 (* unbounded: on any increasing numeric axis that the code's own test classifies as monotonic, for
@@ -80,6 +80,57 @@ Proof.
   - repeat constructor.
   - reflexivity.
 Qed.
+(* NEGATIVE steps, unbounded, both axis directions: the generated code swaps the searchsorted sides, moves the
+   start one position down (nothing selected when that leaves the axis) and turns the stop into an exclusive
+   lower bound, None when it reaches the first position [bounds_neg] ... *)
+Theorem C02_bounds_negstep_increasing : forall k xs lo hi s,
+  (k = KI \/ k = KF) ->
+  g_is_monotonic_equal (arrQ k xs) = Ok (PBool true) ->
+  axis_increasing xs = true ->
+  (s < 0)%Z ->
+  slice_bounds (arrQ k xs) (optQ lo) (optQ hi) (Some s)
+  = Ok (bounds_neg (option_map (fun q => Z.of_nat (count_le q xs)) lo) (option_map (fun q => Z.of_nat (count_lt q xs)) hi)).
+Proof. exact bridge_neg_inc. Qed.
+Print Assumptions C02_bounds_negstep_increasing.
+Theorem C02_bounds_negstep_decreasing : forall k xs lo hi s,
+  (k = KI \/ k = KF) ->
+  g_is_monotonic_equal (arrQ k xs) = Ok (PBool true) ->
+  axis_increasing xs = false ->
+  (s < 0)%Z ->
+  slice_bounds (arrQ k xs) (optQ lo) (optQ hi) (Some s)
+  = Ok (bounds_neg (option_map (fun q => Z.of_nat (List.length xs) - Z.of_nat (count_lt q xs))%Z lo)
+                   (option_map (fun q => Z.of_nat (List.length xs) - Z.of_nat (count_le q xs))%Z hi)).
+Proof. exact bridge_neg_dec. Qed.
+Print Assumptions C02_bounds_negstep_decreasing.
+(* ... so that, through Python's slice semantics, a[lo:hi:-1] is exactly the positions whose label lies between
+   the bounds, both included, in REVERSE axis order - with no wrap-around when a bound lies outside the axis *)
+Theorem C02_slice_reversed_increasing : forall k xs lo hi,
+  (k = KI \/ k = KF) ->
+  g_is_monotonic_equal (arrQ k xs) = Ok (PBool true) ->
+  axis_increasing xs = true ->
+  StronglySorted Qlt xs ->
+  exists a b,
+    run_slice (arrQ k xs) (PNum lo) (PNum hi) (Some (-1)%Z) (List.length xs) = Ok (rev (seq a (b - a))) /\
+    forall i, In i (rev (seq a (b - a))) <->
+              (i < List.length xs)%nat /\ (hi <= nth i xs 0 /\ nth i xs 0 <= lo)%Q.
+Proof. exact bbox_slice_neg_increasing. Qed.
+Print Assumptions C02_slice_reversed_increasing.
+Theorem C02_slice_reversed_decreasing : forall k xs lo hi,
+  (k = KI \/ k = KF) ->
+  g_is_monotonic_equal (arrQ k xs) = Ok (PBool true) ->
+  axis_increasing xs = false ->
+  StronglySorted Qgt' xs ->
+  exists a b,
+    run_slice (arrQ k xs) (PNum lo) (PNum hi) (Some (-1)%Z) (List.length xs) = Ok (rev (seq a (b - a))) /\
+    forall i, In i (rev (seq a (b - a))) <->
+              (i < List.length xs)%nat /\ (lo <= nth i xs 0 /\ nth i xs 0 <= hi)%Q.
+Proof. exact bbox_slice_neg_decreasing. Qed.
+Print Assumptions C02_slice_reversed_decreasing.
+Example C02_reversed_nonvacuous :
+  run_slice (arrQ KF [1; 2.5; 4]%Q) (PNum 3) (PNum 1) (Some (-1)%Z) 3 = Ok [1; 0]%nat /\
+  run_slice (arrQ KF [4; 2.5; 1]%Q) (PNum 2) (PNum 5) (Some (-1)%Z) 3 = Ok [1; 0]%nat /\
+  run_slice (arrQ KF [1; 2.5; 4]%Q) (PNum 0) (PNum (-1)) (Some (-1)%Z) 3 = Ok [].
+Proof. split; [reflexivity|]. split; reflexivity. Qed.
 (* position slices keep Python/NumPy's exclusive-stop meaning *)
 Theorem C02_position_slice : forall a b n,
   (a <= n)%nat -> (b <= n)%nat ->
